@@ -10,4 +10,9 @@ def run(tier):
         if q == 'RegionGraph.__init__':
             reps.append(deductive.verify_function(rel, q, c, hooks=OW.hooks_for(c), prefix='%s::%s[oracle wiring]' % (rel, q)))
     reps.append(OW.frame_report())
+    # the update equations of the convex message passing, value-level (pv/contracts/hps.py)
+    from ..contracts import hps as H
+    rel, q, c = H.ITEM
+    reps.append(deductive.verify_function(rel, q, c, hooks=H.hooks(), prefix='%s::%s[update equations]' % (rel, q)))
+    reps.append(H.local_tables_report())
     return reps
